@@ -49,6 +49,18 @@ CLAIMED = {
         note="The model of Start/Prop/End is functional; that End() does not alias the batch builder's array is C05's effect "
              "analysis and is exercised here by continuing the batch builder after End(). Defects D1, D2 were repaired (fix: commits).",
         ref="DESIGN.md §6 C16"),
+    "C09": dict(
+        technique="Coq proof (exact error list and validated output of a validating run, for every writer tree / value) + independent traversal of dumped values",
+        text="C09_exact / C09_reports / C09_only_if / C09_not_emitted: for every value, the validating rendering's error list is "
+             "exactly the list of invalid names and types the rendering visits (each reported with its string), rendering "
+             "succeeds without error only if all are valid, and every name/type chunk of the output is valid; the two sentinels "
+             "are added nowhere else (compile_plain_errs, induction over all values). Tie: byte-exact correspondence incl. error "
+             "text; offenders collected by an independent traversal of the reflective dump of each generated value (22% hostile "
+             "names/types at every position class, 0..7 simultaneous offenders) are compared with the reported errors.",
+        note="Partial: 'every name of the value is visited' (idents (compile e) = names e) is checked on generated values by the "
+             "independent traversal, not yet proved in Coq. Known finding D5 (branch tail before a set operation). Defect D10 was "
+             "repaired (fix: commit). Scope: all named arguments supplied (a missing bind is C04's error and pre-empts the others).",
+        ref="DESIGN.md §6 C09"),
     "C12": dict(
         technique="Coq interpreter for the adapter bodies over the regenerated Go AST (all inputs of the fragment) + stub-executor harness",
         text="The six Query/QueryRow/Exec bodies of qrbpgx and qrbsql are re-read from /repo on every run (coq/Gen/Ast.v) and "
